@@ -92,3 +92,16 @@ claim("C08",
       "durations >= 40 ms, sorted non-overlapping cues, one text node per line; last-cue ends "
       "not compared once SAMI was on the chain",
       "DESIGN.md 3/C08")
+claim("C13",
+      "Hypothesis layouts over units x value grid x levels x video sizes x relativize/fit "
+      "options, written by DFXP/SAMI/WebVTT writers; outputs parsed independently and compared "
+      "with an exact Fraction reference geometry; expected-exception oracle for missing "
+      "dimensions",
+      "Generated-input search: 21k (thorough 800k) cases; each printed percentage must lie "
+      "within 0.005 of px*100/dim (em=16px, pt=4/3px, 32x15 cells), RelativizationError must be "
+      "raised exactly when a needed dimension is missing, WebVTT settings must be percentages, "
+      "fit-to-screen must keep the region inside 90/95, fill a missing extent exactly and leave "
+      "a fitting extent unchanged. Sizes shared as one object across axes are generated too.",
+      "trusts the reference geometry in vf/props/c13.py; relativize=False judged only for "
+      "all-percent layouts; DFXP div-level layouts are an open known finding",
+      "DESIGN.md 3/C13")
